@@ -171,3 +171,37 @@ def first_diff(path_a, path_b):
             if not x:
                 return None, None
             off += len(x)
+
+
+def check_meta(pre, post, mapping, perms=True, times=True, xattrs=True, owner=False):
+    """C10 core for regular files: mode, mtime (ns), user xattrs, owner as requested."""
+    bad = []
+    for m in mapping:
+        r, d = m["rec"], post.get(m["dst"])
+        if r["k"] != "f" or d is None or d["k"] != "f":
+            continue
+        if perms and d["mode"] != r["mode"]:
+            bad.append(("mode", "%s has mode %o, %s has %o" % (m["src"], r["mode"], m["dst"], d["mode"])))
+        if times and d["mtime_ns"] != r["mtime_ns"]:
+            bad.append(("mtime", "%s has mtime %d, %s has %d" % (m["src"], r["mtime_ns"], m["dst"], d["mtime_ns"])))
+        if perms and xattrs:
+            for k, v in r.get("xattrs", {}).items():
+                if k.startswith("user.") and d.get("xattrs", {}).get(k) != v:
+                    bad.append(("xattr", "%s has %s=%r, %s has %r" % (m["src"], k, v, m["dst"], d.get("xattrs", {}).get(k))))
+        if owner and (d["uid"], d["gid"]) != (r["uid"], r["gid"]):
+            bad.append(("owner", "%s is %d:%d, %s is %d:%d" % (m["src"], r["uid"], r["gid"], m["dst"], d["uid"], d["gid"])))
+    return bad
+
+
+def check_nodes(pre, post, mapping, umask=0o022):
+    """C14 core: special nodes recreated with the same type, device number and mode & ~umask."""
+    bad = []
+    for m in mapping:
+        r, d = m["rec"], post.get(m["dst"])
+        if r["k"] not in ("fifo", "sock", "chr") or d is None or d["k"] != r["k"]:
+            continue
+        if r["k"] == "chr" and d["rdev"] != r["rdev"]:
+            bad.append(("rdev", "%s is device %s, %s is %s" % (m["src"], r["rdev"], m["dst"], d["rdev"])))
+        if d["mode"] != (r["mode"] & ~umask):
+            bad.append(("nodemode", "%s has mode %o (umask %o), %s has %o" % (m["src"], r["mode"], umask, m["dst"], d["mode"])))
+    return bad
